@@ -337,7 +337,7 @@ func checkC13(c *Ctx, p *Prog, r *Result) {
 // makes the tag independent of earlier blocks.
 func c13MacState(p *Prog, r *Result) {
 	rule := "C13.mac-state-preserved"
-	r.rule(rule, "a MAC whose Write XOR-accumulates message bytes into a state field finalises (Sum) without copying into or storing to that field: the zero padding of a partial last block leaves the chaining state untouched")
+	r.rule(rule, "a MAC whose Write XOR-accumulates message bytes into a state field finalises (Sum) without copying into or storing to that field, and any working copy of it is a full copy: the zero padding of a partial last block leaves the chaining state untouched")
 	r.floor(rule, 1)
 	for _, wr := range p.Funcs {
 		if funcPkgPath(wr) != modulePath+"/cose" || wr.Name() != "Write" || wr.Signature.Recv() == nil {
@@ -401,6 +401,12 @@ func c13MacState(p *Prog, r *Result) {
 				case *ssa.Call:
 					if bi, ok := x.Call.Value.(*ssa.Builtin); ok && (bi.Name() == "copy" || bi.Name() == "clear") && fields[baseField(x.Call.Args[0])] {
 						bad = append(bad, bi.Name()+" into the state at "+p.instrPos(in))
+					}
+					// a working copy of the state must be a full copy
+					if bi, ok := x.Call.Value.(*ssa.Builtin); ok && bi.Name() == "copy" && len(x.Call.Args) == 2 && fields[baseField(x.Call.Args[1])] {
+						if sl, ok := x.Call.Args[1].(*ssa.Slice); ok && (sl.High != nil || sl.Low != nil) {
+							bad = append(bad, "partial copy of the state ("+sl.String()+") at "+p.instrPos(in))
+						}
 					}
 				}
 			}
